@@ -162,7 +162,7 @@ class DhtmlxGantt:
             },
             ensure_ascii=False,
             indent=2
-        )
+        ).replace('</', '<\\/')
 
     def to_html(self):
 
